@@ -76,7 +76,7 @@ fn m_record(variant: u8, x: &Enr) -> Option<Enr> {
 // 0x03: Way        active-request idx << 8 | src (0 the request's destination, 1 addr_M, 2 destination IP with another port, 3 IPv4-mapped form of the destination)
 // 0x04: Replay     log idx << 8 | src (0 original, 1 addr_M, 2 IPv4-mapped form of the original)
 // 0x05: Answer     shape 0..7 (M answers V's oldest request to M)
-// 0x06: Late       more than a challenge lifetime passes
+// 0x06: Late       0: more than a challenge lifetime passes; 1: 0.6 of a lifetime passes (free, at most twice)
 fn code(kind: u32, arg: u32) -> u32 {
     (kind << 24) | arg
 }
@@ -87,6 +87,8 @@ pub struct Attack {
     pub replays: bool,
     pub ways: bool,
     pub msgs: bool,
+    /// free move (at most twice): 0.6 of a challenge lifetime passes while a challenge is outstanding
+    pub halves: bool,
 }
 
 fn challenges_of(w: &World) -> Vec<(discv5::NodeAddress, Vec<u8>)> {
@@ -170,6 +172,11 @@ impl Driver for Attack {
         // let more than a challenge lifetime pass while a challenge is outstanding
         if !challenges_of(w).is_empty() && !w.scratch.iter().any(|(k, _)| k == "late") {
             out.push((Ev::Ext(code(6, 0)), 1));
+        }
+        // (taken only while nothing else is pending, like the idle periods of the C15 worlds)
+        let quiet = w.inflight.is_empty() && w.nodes.iter().all(|n| n.way_queries.is_empty() && n.inbound.is_empty());
+        if self.halves && quiet && !challenges_of(w).is_empty() && w.scratch.iter().filter(|(k, _)| k == "half").count() < 2 {
+            out.push((Ev::Ext(code(6, 1)), 0));
         }
         // M as responder: V has a request outstanding to M and a session with it
         if let Some(s) = w.snap(V) {
@@ -277,6 +284,10 @@ impl Driver for Attack {
                     };
                     w.log_mark = w.log.len();
                     w.deliver_raw(V, src, &d.bytes, d.kind, d.nonce, d.origin).await;
+                }
+                6 if arg == 1 => {
+                    w.scratch.push(("half".into(), vec![]));
+                    w.advance_through(crate::hsim::REQUEST_TIMEOUT * 6 / 10).await;
                 }
                 6 => {
                     w.scratch.push(("late".into(), vec![]));
@@ -444,7 +455,7 @@ pub fn configs(thorough: bool) -> Vec<(String, HCfg)> {
 }
 
 pub fn driver(thorough: bool) -> Attack {
-    Attack { handshake_records: if thorough { vec![0, 1, 2, 3, 4, 5] } else { vec![0, 1, 2, 3, 5] }, handshake_sigs: if thorough { vec![0, 1, 2, 3] } else { vec![0, 1, 2] }, replays: true, ways: true, msgs: true }
+    Attack { handshake_records: if thorough { vec![0, 1, 2, 3, 4, 5] } else { vec![0, 1, 2, 3, 5] }, handshake_sigs: if thorough { vec![0, 1, 2, 3] } else { vec![0, 1, 2] }, replays: true, ways: true, msgs: true, halves: thorough }
 }
 
 pub fn regression_holds(payload: &serde_json::Value, prop: &str) -> bool {
@@ -476,7 +487,9 @@ pub fn replay(payload: &serde_json::Value, prop: &str) {
 /// Runs the attacker worlds and returns (stats, violations for `prop`).
 pub fn explore(prop: &str, thorough: bool, budget_s: f64, k_max: u32) -> (mc::Stats, Vec<mc::Violation>, Vec<serde_json::Value>) {
     let monitors = Monitors { c03: prop == "C03", c04: prop == "C04", c13: prop == "C13", c15: false, c19: false, c20: false };
-    let d = driver(thorough);
+    let mut d = driver(thorough);
+    // partial passing of a challenge lifetime matters to the expiry clause of C03
+    d.halves = thorough || prop == "C03";
     let cfgs = configs(thorough);
     let start = clock::wall();
     let per = budget_s / cfgs.len() as f64;
